@@ -3,6 +3,7 @@ import O4.Lemmas.Obfs3
 import O4.Lemmas.UdhAgree
 import O4.Lemmas.CtrLaw
 import O4.Generated.Facts.Obfs3
+import O4.Generated.Facts.Uniformdh
 /-!
 # C13 — obfs3 and UniformDH: agreement, stream integrity, rejection of over-padding
 
@@ -654,5 +655,21 @@ def outOf : ReadRes → Option Bytes
 example : demoMagic.length = 32 ∧ demoFlight.1.rxBuf = some [] ∧ demoFlight.2.flatten.length = 2 + 32 + 2 ∧
     outOf (read toyP demoFlight.1 100 demoFlight.2) = some [42, 43] := by
   decide +kernel
+
+
+/-- **structural fact, regenerated from the Go source on every run (go/ast)**: every package-level
+    variable (file-scope `var`) of the packages this property's mechanisms live in
+    (transports/obfs3, common/uniformdh) is one of the names below — error values, fixed byte strings,
+    flags and function hooks that the code only reads after initialisation.  The models treat all
+    other state as owned by one connection / one object; a NEW package-level variable (a cache, a
+    pool, a scratch buffer, a pre-keyed hash shared "to save allocations") is how such state comes
+    to be shared between connections and goroutines, which compiles, passes the tests and typically
+    needs true parallelism or a multi-connection history to misbehave.  Adding one breaks this
+    theorem; the concurrent / multi-connection families of the harness then search for the failing
+    schedule. -/
+theorem no_new_package_level_state :
+    O4.Facts.Obfs3.pkg_vars ⊆ [] ∧
+    O4.Facts.Uniformdh.pkg_vars ⊆ ["gen", "modpGroup"] := by
+  decide
 
 end C13
